@@ -110,23 +110,37 @@ package main
 //@ ufun $deniedUpTo(int, string) bool
 //@ axiom denied-by-none: forall(s, string, !$deniedUpTo(0, s))
 //@ axiom denied-step: forall(n, int, forall(s, string, n >= 1 ==> ($deniedUpTo(n, s) == ($deniedUpTo(n - 1, s) || $reMatch("^(?:" + $denyAt(n - 1) + ")$", s)))))
+// allow direction (soundness): when an allow list is given, every tag of the result matches - as a
+// whole - one of its expressions ($allowAt / $allowedUpTo: the same vocabulary for the allow list).
+//@ ufun $allowAt(int) string
+//@ ufun $allowedUpTo(int, string) bool
+//@ axiom allowed-by-none: forall(s, string, !$allowedUpTo(0, s))
+//@ axiom allowed-step: forall(n, int, forall(s, string, n >= 1 ==> ($allowedUpTo(n, s) == ($allowedUpTo(n - 1, s) || $reMatch("^(?:" + $allowAt(n - 1) + ")$", s)))))
 //@ func filterList(ad, in) (out, err)
 //@   prop C18
-//@   entry-assume $arr(ad.Deny) != $arr(in) && $arr(ad.Deny) >= 0 && $arr(in) >= 0
+//@   entry-assume $arr(ad.Deny) != $arr(in) && $arr(ad.Deny) >= 0 && $arr(in) >= 0 && $arr(ad.Allow) != $arr(in) && $arr(ad.Allow) >= 0
 //@   entry-assume forall(dd, 0, len(ad.Deny), $denyAt(dd) == ad.Deny[dd])
+//@   entry-assume forall(aa, 0, len(ad.Allow), $allowAt(aa) == ad.Allow[aa])
 //@   let deny = ad.Deny
+//@   let allow = ad.Allow
 //@   loop 0 (filter)
-//@     invariant deny-list-untouched: ad.Deny == deny && forall(dd, 0, len(deny), deny[dd] == $denyAt(dd))
+//@     invariant lists-untouched: ad.Deny == deny && ad.Allow == allow && -1 <= $idx && $idx < len(allow) && forall(dd, 0, len(deny), deny[dd] == $denyAt(dd)) && forall(aa, 0, len(allow), allow[aa] == $allowAt(aa))
+//@     invariant selected-so-far-allowed: len(allow) > 0 && forall(k, 0, len(result), result[k] == "" || $allowedUpTo($idx + 1, result[k]))
 //@   loop 1 (i)
-//@     invariant deny-list-untouched: ad.Deny == deny && forall(dd, 0, len(deny), deny[dd] == $denyAt(dd))
+//@     invariant lists-untouched: ad.Deny == deny && ad.Allow == allow && 0 <= $idx && $idx < len(allow) && filter == $allowAt($idx) && exp != nil && $pat(exp) == "^(?:" + filter + ")$" && forall(dd, 0, len(deny), deny[dd] == $denyAt(dd)) && forall(aa, 0, len(allow), allow[aa] == $allowAt(aa))
+//@     invariant selected-so-far-allowed: len(allow) > 0 && forall(k, 0, len(result), result[k] == "" || $allowedUpTo($idx + 1, result[k]))
 //@   loop 2 (filter)
-//@     invariant deny-list-untouched: ad.Deny == deny && -1 <= $idx__3 && $idx__3 < len(deny) && forall(dd, 0, len(deny), deny[dd] == $denyAt(dd))
+//@     invariant deny-list-untouched: ad.Deny == deny && len(ad.Allow) == len(allow) && -1 <= $idx__3 && $idx__3 < len(deny) && forall(dd, 0, len(deny), deny[dd] == $denyAt(dd))
 //@     invariant denied-so-far-blanked: forall(k, 0, len(result), result[k] == "" || !$deniedUpTo($idx__3 + 1, result[k]))
+//@     invariant selected-allowed: len(allow) > 0 ==> forall(k, 0, len(result), result[k] == "" || $allowedUpTo(len(allow), result[k]))
 //@   loop 3 (i)
-//@     invariant deny-list-untouched: ad.Deny == deny && 0 <= $idx__3 && $idx__3 < len(deny) && filter__2 == $denyAt($idx__3) && exp__2 != nil && $pat(exp__2) == "^(?:" + filter__2 + ")$" && forall(dd, 0, len(deny), deny[dd] == $denyAt(dd))
+//@     invariant deny-list-untouched: ad.Deny == deny && len(ad.Allow) == len(allow) && 0 <= $idx__3 && $idx__3 < len(deny) && filter__2 == $denyAt($idx__3) && exp__2 != nil && $pat(exp__2) == "^(?:" + filter__2 + ")$" && forall(dd, 0, len(deny), deny[dd] == $denyAt(dd))
 //@     invariant denied-so-far-blanked: forall(k, 0, len(result), result[k] == "" || !$deniedUpTo($idx__3, result[k]))
 //@     invariant current-filter-applied: -1 <= $idx__5 && $idx__5 < len(result) && forall(k, 0, $idx__5 + 1, result[k] == "" || !$reMatch("^(?:" + filter__2 + ")$", result[k]))
+//@     invariant selected-allowed: len(allow) > 0 ==> forall(k, 0, len(result), result[k] == "" || $allowedUpTo(len(allow), result[k]))
 //@   loop 4 (i)
-//@     invariant all-denied-blanked: len(ad.Deny) == len(deny) && forall(k, 0, len(result), result[k] == "" || !$deniedUpTo(len(deny), result[k]))
-//@     invariant compressed-clean: forall(j, 0, len(compressed), compressed[j] != "" && !$deniedUpTo(len(deny), compressed[j]))
+//@     invariant all-denied-blanked: len(ad.Deny) == len(deny) && len(ad.Allow) == len(allow) && forall(k, 0, len(result), result[k] == "" || !$deniedUpTo(len(deny), result[k]))
+//@     invariant selected-allowed: len(allow) > 0 ==> forall(k, 0, len(result), result[k] == "" || $allowedUpTo(len(allow), result[k]))
+//@     invariant compressed-clean: forall(j, 0, len(compressed), compressed[j] != "" && !$deniedUpTo(len(deny), compressed[j]) && (len(allow) > 0 ==> $allowedUpTo(len(allow), compressed[j])))
 //@   ensures denied-tags-never-selected: err == nil ==> forall(j, 0, len(out), out[j] != "" && !$deniedUpTo(len(old(ad.Deny)), out[j]))
+//@   ensures only-allowed-tags-selected: err == nil && len(old(ad.Allow)) > 0 ==> forall(j, 0, len(out), $allowedUpTo(len(old(ad.Allow)), out[j]))
